@@ -349,6 +349,30 @@ def strprec_groups(rng=None):
     return gs
 
 
+# ---- the ' flag with a caller-supplied locale_options that really groups (print_digits' grouping counters):
+# grouping strings and separators in exact-size heap blocks, values with 1..19 digits, precisions that add digits
+GROUPINGS = [b"\x03", b"\x03\x02", b"\x01", b"\x02\x03", b"\x03\x03", b"\x01\x02\x03", b"\x04", b"\x03\x7f", b"\x7f", b"\xff"]
+SEPARATORS = [b",", b".", b" ", b"", b"\xe2\x80\xaf", b"''"]
+
+
+def grouping_groups(rng, n_random=300):
+    gs = []
+    vals = [0, 1, 12, 123, 1234, 12345, 123456, 1234567, 12345678, 123456789, 1234567890, 10**12 + 7, 10**15, 2**63 - 1,
+            -1, -1234, -123456, -2**63]
+    for g in GROUPINGS:
+        for v in vals:
+            gs.append(["grp %d 0 1 0 0 %s %s" % (v, hx(g), hx(b",")), "tag grouping"])
+    for _ in range(n_random):
+        nd = rng.randrange(1, 20)
+        v = rng.randrange(10 ** (nd - 1), min(10 ** nd, 2**63)) * rng.choice([1, 1, -1])
+        width = rng.choice([0, 0, 5, 12, 30])
+        prec = rng.choice([1, 1, 1, 0, 4, 7, 12, 25])
+        lj = rng.choice([0, 0, 1])
+        zero = rng.choice([0, 0, 1]) if not lj else 0
+        gs.append(["grp %d %d %d %d %d %s %s" % (v, width, prec, lj, zero, hx(rng.choice(GROUPINGS)), hx(rng.choice(SEPARATORS))), "tag grouping"])
+    return gs
+
+
 # ---- model-only cases (outside ISO's defined behaviour or frigg extensions): no spec line
 def extension_groups():
     gs = []
@@ -542,6 +566,9 @@ def quick_cases(rng, n_dir=6000, n_mal=6000):
     smp = [s for s in smp if not avoid_huge(s)]
     for i in range(0, len(smp), 32):
         cases.append(("mal-smp-%d" % i, join_groups([raw_group(s, rng) for s in smp[i:i + 32]])))
+    gg = grouping_groups(rng)
+    for i in range(0, len(gg), 16):
+        cases.append(("mal-grouping-%d" % i, join_groups(gg[i:i + 16])))
     sp = strprec_groups(rng)
     for i in range(0, len(sp), 16):
         cases.append(("mal-strprec-%d" % i, join_groups(sp[i:i + 16])))
